@@ -66,7 +66,7 @@ func init() {
 }
 
 func histOptsStruct() HistOpts {
-	return HistOpts{MaxOps: 80, AllowPacket: true, AllowInvalid: true, AutoPIDs: true, BigAF: true, LongPayloads: true, OversizePMT: true, ManyPackets: true, WritePktPIDs: writePktPIDs, ReuseAF: true}
+	return HistOpts{MaxOps: 80, AllowPacket: true, AllowInvalid: true, AutoPIDs: true, BigAF: true, LongPayloads: true, OversizePMT: true, ManyPackets: true, WritePktPIDs: writePktPIDs, ReuseAF: true, OddPrivateData: true}
 }
 
 func runMuxStruct(c *mon.Ctx, prop string) {
